@@ -7,7 +7,9 @@ patch=$(readlink -f "$1"); tier=$2; shift 2
 cd /verif
 wt=/tmp/mutrepo-$$
 git -C /repo worktree add -q --detach $wt HEAD || exit 2
-git -C $wt apply "$patch" || { echo "patch does not apply"; git -C /repo worktree remove --force $wt; exit 2; }
+# seeded changes were written against c38f85e; apply on the current HEAD with a 3-way fallback
+( cd $wt && { git apply "$patch" 2>/dev/null || git apply --3way "$patch" 2>/dev/null; } ) || { echo "patch does not apply on HEAD"; git -C /repo worktree remove --force $wt; exit 2; }
+( cd $wt && git diff --quiet HEAD && git diff --cached --quiet HEAD ) && { echo "patch applied to nothing"; }
 for p in "$@"; do
   out=$(VERIF_REPO=$wt VERIF_EVIDENCE_DIR=/verif/.work/mut-evidence VERIF_REPLAY_DIR=/verif/.work/mut-replays bin/check $p --tier $tier 2>&1); rc=$?
   echo "== $p rc=$rc"; echo "$out" | grep -E "^(property=|VIOLATION|HARNESS-ERROR|KNOWN-FINDING|INCONCLUSIVE|  violation)" | cut -c1-400 | head -8
